@@ -42,7 +42,7 @@ Proof.
       pose proof (wfc_ts_loop cur (collect_children (cc_fuel b) b o0 ++ [o0]) b 0%Z (d_payload d) W) as H.
       destruct (ts_loop cur b (collect_children (cc_fuel b) b o0 ++ [o0]) 0%Z (d_payload d)) as [[c' i] p]. exact H.
   - destruct (type_of b o0) as [[| | |]|]; simpl; auto;
-      destruct (object_status b o0 cur =? st_tombstoned); simpl; auto.
+      destruct ((object_status b o0 cur =? st_tombstoned) || (in_garbage b o0 =? st_tombstoned)); simpl; auto.
 Qed.
 
 Lemma wfc_put_metadata b o phy : wfc b -> wfc (put_metadata b o phy).
